@@ -1,7 +1,7 @@
 """Per-property exploration: which harness runs, what is compared, which oracle clauses count."""
 import os, sys, json, random, glob, collections, multiprocessing, time
 VERIF = os.path.dirname(os.path.dirname(os.path.abspath(__file__)))
-from harness import common, l1, store_oracle
+from harness import common, l1, store_oracle, tbuffer
 
 # fields of a row whose disagreement (model vs implementation) concerns each store-level property
 L1_FIELDS = {
@@ -76,13 +76,14 @@ def _l1_worker(args):
 
 def load_corpus(model, kind):
     out = []
+    anykind = kind is None
     for f in sorted(glob.glob(os.path.join(VERIF, "harness", "corpus", "*.json"))):
         try:
             c = json.load(open(f))
         except Exception:
             continue
         for case in (c if isinstance(c, list) else [c]):
-            if case.get("model") == model and case.get("kind") == kind:
+            if case.get("model") == model and (anykind or case.get("kind") == kind):
                 out.append(case)
     return out
 
@@ -119,6 +120,61 @@ def run_l1(pid, tier, seed):
     return res
 
 
+
+# ------------------------------------------------------------------ C11 (timed Buffer edge)
+def _c11_worker(args):
+    n, seed, corpus = args
+    rng = random.Random(seed)
+    cases = list(corpus) + [tbuffer.gen_case(rng, rng.randrange(10, 80)) for _ in range(n)]
+    out = dict(evals=0, tags=collections.Counter(), sigs=set(), dis=[], viol=[], samples=[], ops=collections.Counter())
+    for lo in range(0, len(cases), 400):
+        for r in tbuffer.run_batch(cases[lo:lo + 400]):
+            c = r["case"]
+            out["evals"] += 1
+            tg = tbuffer.tags(c, r["micro"], r["impl"])
+            out["tags"].update(tg)
+            out["sigs"].add((c["cap"], c["mode"], c["delay_source"], tuple(sorted(tg)), tuple(o[0] for o in r["micro"])))
+            for o in r["micro"]:
+                out["ops"][o[0]] += 1
+            if r["dis"]:
+                i, diff, da, db = r["dis"]
+                out["dis"].append(dict(case=c, op_index=i, micro_op=list(r["micro"][i]), fields=diff, impl=da, model=db))
+            v = tbuffer.oracle(c, r["micro"], r["impl"], r["draws"])
+            if v:
+                i, msg = v[0]
+                out["viol"].append(dict(**{"class": "tbuffer"}, message=msg, op_index=i, case=c,
+                                        micro=[list(o) for o in r["micro"][:i + 1]], impl_rows=r["impl"][max(0, i - 2):i + 1]))
+            if not out["samples"] and "timer-grant" in tg:
+                out["samples"].append(dict(cap=c["cap"], mode=c["mode"], delay_source=c["delay_source"],
+                                           ops=[list(o) for o in r["micro"][:25]]))
+    out["sigs"] = len(out["sigs"])
+    out["dis"], out["viol"] = out["dis"][:3], out["viol"][:3]
+    return out
+
+
+def run_c11(pid, tier, seed):
+    n = 1500 if tier == "quick" else 120000
+    shards = 4 if tier == "quick" else 16
+    corpus = [c for c in load_corpus("tbuffer", None)]
+    jobs = [(n // shards, seed * 977 + k, corpus if k == 0 else []) for k in range(shards)]
+    with multiprocessing.Pool(min(16, shards)) as pool:
+        outs = pool.map(_c11_worker, jobs)
+    res = dict(evaluations=0, distinct_nontrivial=0, samples=[], traces=0, disagreements=[], violations=[], known=[])
+    tags, ops = collections.Counter(), collections.Counter()
+    for o in outs:
+        res["evaluations"] += o["evals"]; res["traces"] += o["evals"]; res["distinct_nontrivial"] += o["sigs"]
+        res["disagreements"] += o["dis"]; res["violations"] += o["viol"]; res["samples"] += o["samples"]
+        tags.update(o["tags"]); ops.update(o["ops"])
+    res["rule"] = ("online-generated histories on the real Buffer edge (capacity 1-4, FIFO/LIFO, delay source constant / callable / "
+                   "generator with delays 0-5 incl. zero, 1-3 callers, reserve/put/get/cancel, kernel pops, time advances, and "
+                   "PROBE = can_put()/can_get()/occupancy() followed by probe reservations) replayed on the extracted timed model "
+                   "TBuffer + regenerated query fragments; every history is non-trivial (contains a put or a probe); distinct = "
+                   "distinct (capacity, mode, delay source, situations reached, op-kind sequence)")
+    res["distribution"] = dict(histories_reaching=dict(tags), micro_ops=dict(ops))
+    res["domain"] = "Buffer edge over BufferStore; Fleet.can_put/can_get are covered by the regenerated-fragment theorems and by C14's harness"
+    return res
+
+
 def replay(pid, path):
     obj = json.load(open(path))
     case = obj.get("case")
@@ -143,4 +199,8 @@ SPECS = {
     "C05": dict(run=run_l1, trusted=L1_TRUST),
     "C06": dict(run=run_l1, trusted=L1_TRUST),
     "C07": dict(run=run_l1, trusted=L1_TRUST),
+    "C11": dict(run=run_c11, trusted=["modelled, not verified: Buffer / BufferStore classes, SimPy kernel (its contract 'an event scheduled "
+                                      "for t is processed at now = t, the clock never passes a pending event' is the legality condition "
+                                      "of TFire / TIdle in the timed model and is checked against the real kernel by the correspondence)",
+                                      "integer delays in the harness (exact in floating point)"]),
 }
